@@ -51,8 +51,10 @@ class Roles:
         return self._memo("actors", go)
 
     def relays(self):
+        """message loops of the engine: bodies with a select arm on the actors' output channel"""
         def go():
-            out = [b for b in self.f.code_bodies() if b.coroutine and any(tyname(ty) == "TargetActorOutputMessage" for ty, _ in recv_types(b))]
+            out = [b for b in self.f.code_bodies() if b.coroutine and any(tyname(ty) == "TargetActorOutputMessage" for ty, _ in recv_types(b))
+                   and arm_by_payload(b, lambda p: "TargetActorOutputMessage" in p)]
             return sorted(out, key=lambda b: b.name)
         return self._memo("relays", go)
 
@@ -312,15 +314,13 @@ class Roles:
         return self._memo("resolvers", go)
 
     def launchers(self):
-        """bodies that hand an actor body to task::spawn"""
+        """bodies that create an actor's run future (and are expected to hand it to task::spawn)"""
         def go():
-            actor_fns = {self.fn_of(a).name for a in self.actors()}
             out = []
-            for n, uses in self.f.cg.spawn_roots.items():
-                if n in actor_fns or n in {a.name for a in self.actors()}:
-                    for (how, inb, bb) in uses:
-                        if self.f.bodies[inb] not in out:
-                            out.append(self.f.bodies[inb])
+            for a in self.actors():
+                for (cb, bb, t) in self.callers_of(a):
+                    if cb not in out:
+                        out.append(cb)
             return out
         return self._memo("launchers", go)
 
